@@ -107,6 +107,17 @@ structure Cmd where
   regs : List Nat := []
 deriving DecidableEq, Repr, Inhabited
 
+/-- modes whose measured value a circuit reads before measuring them itself -/
+def Par.dep : Par → Option Nat
+  | .sym (.meas m) _ _ => some m
+  | _ => none
+
+def Cmd.deps (c : Cmd) : List Nat := c.pars.filterMap Par.dep
+
+def openDeps : List Cmd → List Nat
+  | [] => []
+  | c :: rest => c.deps ++ (openDeps rest).filter fun m => !(c.kind == .meas && c.regs.contains m)
+
 /-- one back-end API call -/
 structure Call where
   name : String
@@ -114,6 +125,7 @@ structure Call where
   modes : List Nat := []
   sel : Option (List Rat) := none
   opts : List (String × Int) := []
+  shots : Option Nat := none        -- the `shots=` keyword of measurement calls
 deriving DecidableEq, Repr, Inhabited
 
 /-- the back-end method each `_apply` calls (arguments are the evaluated parameters, then the modes) -/
@@ -149,12 +161,18 @@ def gateArgs (pars : List Par) (dagger : Bool) : Option (List Par) :=
 
 /-! ## running a circuit (`_run_program` loop) -/
 
+/-- the measurement outcomes are an input: call number `k` returns, for each measured mode, the vector of
+its values over the shots; `shots` is the effective `shots` run option of the `run` call -/
+structure Outc where
+  get : Nat → List (List Rat)
+  shots : Nat := 1
+
 structure RunSt where
   vals : Nat → Option Val            -- RegRef.val of the program being run
   mpos : Nat                         -- number of measurement calls made so far (index into the outcome stream)
-  samples : List (Nat × Rat) := []   -- `samples_dict` of this segment: latest value per mode, sorted by mode
+  samples : List (Nat × List Rat) := []   -- `samples_dict` of this segment: latest values (over the shots) per mode, sorted by mode
 
-def insSample (m : Nat) (v : Rat) : List (Nat × Rat) → List (Nat × Rat)
+def insSample (m : Nat) (v : List Rat) : List (Nat × List Rat) → List (Nat × List Rat)
   | [] => [(m, v)]
   | (m', v') :: rest =>
     if m < m' then (m, v) :: (m', v') :: rest
@@ -162,14 +180,14 @@ def insSample (m : Nat) (v : Rat) : List (Nat × Rat) → List (Nat × Rat)
     else (m', v') :: insSample m v rest
 
 /-- `for v, r in zip(values.T, reg): r.val = v` (the back end returns one value per measured mode;
-a missing value is read as 0 so that the function is total) -/
-def storeVals (vals : Nat → Option Val) : List Nat → List Rat → (Nat → Option Val)
+a missing column is read as empty so that the function is total) -/
+def storeVals (vals : Nat → Option Val) : List Nat → List (List Rat) → (Nat → Option Val)
   | [], _ => vals
-  | r :: rs, o => storeVals (fun m => if m = r then some [o.headD 0] else vals m) rs o.tail
+  | r :: rs, o => storeVals (fun m => if m = r then some (o.headD []) else vals m) rs o.tail
 
-def storeSamples (s : List (Nat × Rat)) : List Nat → List Rat → List (Nat × Rat)
+def storeSamples (s : List (Nat × List Rat)) : List Nat → List (List Rat) → List (Nat × List Rat)
   | [], _ => s
-  | r :: rs, o => storeSamples (insSample r (o.headD 0) s) rs o.tail
+  | r :: rs, o => storeSamples (insSample r (o.headD []) s) rs o.tail
 
 def mkCall (cls : String) (args : List (List Num)) (c : Cmd) : Except Err Call :=
   match apiName cls with
@@ -204,7 +222,7 @@ def mzCalls (free : String → Option Rat) (vals : Nat → Option Val) (dagger :
   | .ok _ => .error .unmodelled
 
 /-- `cmd.op.apply(cmd.reg, backend)` for one command; returns the new state and the calls made -/
-def applyCmd (free : String → Option Rat) (outc : Nat → List Rat) (st : RunSt) (c : Cmd) :
+def applyCmd (free : String → Option Rat) (outc : Outc) (st : RunSt) (c : Cmd) :
     Except Err (RunSt × List Call) :=
   match c.kind with
   | .gate =>
@@ -231,13 +249,13 @@ def applyCmd (free : String → Option Rat) (outc : Nat → List Rat) (st : RunS
       match mkCall c.cls args c with
       | .error e => .error e
       | .ok call =>
-        let o := outc st.mpos
+        let o := outc.get st.mpos
         .ok ({ vals := storeVals st.vals c.regs o, mpos := st.mpos + 1,
-               samples := storeSamples st.samples c.regs o }, [{ call with sel := c.sel }])
+               samples := storeSamples st.samples c.regs o }, [{ call with sel := c.sel, shots := some outc.shots }])
   | .newModes => .ok (st, [{ name := "add_mode", args := [[⟨(c.regs.length : Nat), 0⟩]] }])
   | .del => .ok (st, [{ name := "del_mode", modes := c.regs }])
 
-def runCircuit (free : String → Option Rat) (outc : Nat → List Rat) :
+def runCircuit (free : String → Option Rat) (outc : Outc) :
     RunSt → List Cmd → Except Err (RunSt × List Call)
   | st, [] => .ok (st, [])
   | st, c :: rest =>
@@ -320,6 +338,7 @@ structure Prog where
   regs : List (Nat × Bool)              -- reg_refs      : (ind, active)
   circuit : List Cmd
   freeNames : List String := []
+  shots : Option Nat := none             -- run_options.get("shots")
 deriving Repr, Inhabited
 
 /-- `Program.compile`: the compiled program is a linked copy (same RegRefs and free parameters —
@@ -344,8 +363,9 @@ structure Eng where
   opts : List (String × Int) := []               -- backend_options
   prev : Option (List (Nat × Bool)) := none      -- reg_refs of run_progs[-1]
   runIds : List Nat := []                        -- run_progs (ids of the programs run)
-  samples : Option (List Rat) := none            -- self.samples (shots = 1: one row; `some []` = empty array)
+  samples : Option (List (List Rat)) := none     -- self.samples: one row per shot (`some []` = the empty array)
   measured : Nat → Option Val := fun _ => none   -- self._measured_vals.get(k): latest value per subsystem index
+  contd : Bool := false                          -- any(p.circuit for p in self.run_progs)
   mpos : Nat := 0
 
 def fresh (bk : BK) (opts : List (String × Int)) (mpos : Nat := 0) : Eng := { bk := bk, opts := opts, mpos := mpos }
@@ -369,19 +389,36 @@ def handOver (regs : List (Nat × Bool)) (measured : Nat → Option Val) (vals :
 
 def nonGaussPreps : List String := ["Bosonic", "Catstate", "DensityMatrix", "Fock", "GKP", "Ket"]
 
-/-- `_run_program` : `LocalEngine` loops over the circuit; the bosonic back end's `run_prog` first
-calls `init_circuit` → `begin_circuit(prog.init_num_subsystems)` whenever the circuit is non-empty -/
-def runProgram (bk : BK) (free : String → Option Rat) (outc : Nat → List Rat) (initN : Nat)
+/-- in a continuation the bosonic `run_prog` refuses non-Gaussian preparations when it reaches them:
+modelled by replacing the command by one no back end can apply -/
+def bosonicMark (c : Cmd) : Cmd :=
+  if nonGaussPreps.contains c.cls then { c with cls := "(non-Gaussian preparation)" } else c
+
+/-- `_run_program` : `LocalEngine` loops over the circuit.  `BosonicEngine` (repaired code) passes
+`continuation = any(p.circuit for p in self.run_progs)` to the bosonic `run_prog`: the first non-empty
+program of a computation goes through `init_circuit` → `begin_circuit(prog.init_num_subsystems)`
+(its non-Gaussian preparations and `New` are handled there by direct state manipulation: outside
+this model); a continuation is looped over like on the other engines, `New` included, and
+non-Gaussian preparations raise `NotImplementedError` -/
+def runProgram (bk : BK) (cont : Bool) (free : String → Option Rat) (outc : Outc) (initN : Nat)
     (st : RunSt) (circ : List Cmd) : Except Err (RunSt × List Call) :=
   match bk with
   | .bosonic =>
-    if circ.any (fun c => nonGaussPreps.contains c.cls || c.kind == .newModes) then .error .unmodelled
+    if cont then runCircuit free outc st (circ.map bosonicMark)
+    else if circ.any (fun c => nonGaussPreps.contains c.cls || c.kind == .newModes) then .error .unmodelled
     else
       match runCircuit free outc st circ with
       | .error e => .error e
       | .ok (st', t) =>
         .ok (st', if circ.isEmpty then t else { name := "begin_circuit", args := [[⟨(initN : Nat), 0⟩]] } :: t)
   | _ => runCircuit free outc st circ
+
+/-- `np.transpose` of the per-mode columns: one row per returned sample (the empty array if nothing was
+measured; the number of rows is what the back end returned, normally `shots`) -/
+def rowsOf (cols : List (List Rat)) : List (List Rat) :=
+  match cols with
+  | [] => []
+  | c0 :: _ => (List.range c0.length).map fun s => cols.map fun c => c.getD s 0
 
 def setAt {α : Type} (f : Nat → α) (i : Nat) (x : α) : Nat → α := fun j => if j = i then x else f j
 
@@ -396,7 +433,7 @@ def initStep (e : Eng) (p : Prog) (vals : Nat → Option Val) : Except Err ((Nat
 
 /-- the body of the `for p in program` loop of `BaseEngine._run` for the program with id `i`:
 compile (linked copy), `initStep`, `bind_params`, `lock`, `_run_program`, append to `run_progs` -/
-def runOne (cp : Compiler) (progs : Nat → Prog) (outc : Nat → List Rat) (args : List (String × Rat))
+def runOne (cp : Compiler) (progs : Nat → Prog) (outc : Outc) (args : List (String × Rat))
     (e : Eng) (w : World) (i : Nat) : Except Err (Eng × World × List Call) :=
   match compileProg cp (progs i) with
   | .error err => .error err
@@ -407,16 +444,17 @@ def runOne (cp : Compiler) (progs : Nat → Prog) (outc : Nat → List Rat) (arg
       match bindParams cpd.freeNames (w.free i) args with
       | .error err => .error err
       | .ok free1 =>
-        match runProgram e.bk free1 outc cpd.initN { vals := vals0, mpos := e.mpos } cpd.circuit with
+        match runProgram e.bk e.contd free1 outc cpd.initN { vals := vals0, mpos := e.mpos } cpd.circuit with
         | .error err => .error err
         | .ok (st, t) =>
           -- self._measured_vals = {k: r.val for k, r in p.reg_refs.items()}
-          .ok ({ e with prev := some cpd.regs, runIds := e.runIds ++ [i], samples := some (st.samples.map (·.2)),
-                        measured := fun k => if hasIdx cpd.regs k then st.vals k else none, mpos := st.mpos },
+          .ok ({ e with prev := some cpd.regs, runIds := e.runIds ++ [i], samples := some (rowsOf (st.samples.map (·.2))),
+                        measured := fun k => if hasIdx cpd.regs k then st.vals k else none,
+                        contd := e.contd || !cpd.circuit.isEmpty, mpos := st.mpos },
                { vals := setAt w.vals i st.vals, free := setAt w.free i free1, locked := setAt w.locked i true },
                t0 ++ t)
 
-def runList (cp : Compiler) (progs : Nat → Prog) (outc : Nat → List Rat) (args : List (String × Rat)) :
+def runList (cp : Compiler) (progs : Nat → Prog) (outc : Outc) (args : List (String × Rat)) :
     Eng → World → List Nat → Except Err (Eng × World × List Call)
   | e, w, [] => .ok (e, w, [])
   | e, w, i :: rest =>
@@ -429,12 +467,46 @@ def runList (cp : Compiler) (progs : Nat → Prog) (outc : Nat → List Rat) (ar
 
 def stateCall : Call := { name := "state" }
 
-/-- `LocalEngine.run` with one shot: the segment loop, then the (read-only) `backend.state` query -/
-def run (cp : Compiler) (progs : Nat → Prog) (outc : Nat → List Rat) (args : List (String × Rat))
+/-- the keyword arguments of `run` the model knows -/
+structure RunKw where
+  shots : Option Nat := none              -- `shots=`
+  modes : Option (List Nat) := none       -- `modes=` (`none` = not given / `None`)
+deriving DecidableEq, Repr, Inhabited
+
+/-- `temp_run_options.update(p.run_options)` over the list: the last program that sets `shots` wins -/
+def lastShots (progs : Nat → Prog) : List Nat → Option Nat
+  | [] => none
+  | i :: rest => (lastShots progs rest).orElse fun _ => (progs i).shots
+
+/-- keyword argument, else the programs' run options, else 1 -/
+def effShots (progs : Nat → Prog) (kw : RunKw) (l : List Nat) : Nat :=
+  ((kw.shots.orElse fun _ => lastShots progs l)).getD 1
+
+/-- `c.op.select is not None` (repaired code: selecting the value 0 is a post-selection too) -/
+def selTruthy (c : Cmd) : Bool := c.sel.isSome
+
+/-- the checks of `LocalEngine.run` on the (uncompiled) circuits: post-selection and feed-forward exclude
+several shots -/
+def preCheck (progs : Nat → Prog) (shots : Nat) (l : List Nat) : Bool :=
+  decide (shots > 1) && l.any fun i => (progs i).circuit.any fun c => selTruthy c || !c.deps.isEmpty
+
+/-- `if modes is None or modes: result.state = self.backend.state(modes=modes, ...)` -/
+def stateCalls (kw : RunKw) : List Call :=
+  match kw.modes with
+  | none => [stateCall]
+  | some [] => []
+  | some l => [{ name := "state", modes := l, opts := [("modes", 1)] }]
+
+/-- `LocalEngine.run`: merge the run options, check them, run the segment loop, then make the
+(read-only) `backend.state` query -/
+def run (cp : Compiler) (progs : Nat → Prog) (o : Nat → List (List Rat)) (args : List (String × Rat)) (kw : RunKw)
     (e : Eng) (w : World) (l : List Nat) : Except Err (Eng × World × List Call) :=
-  match runList cp progs outc args e w l with
-  | .error err => .error err
-  | .ok (e1, w1, t) => .ok (e1, w1, t ++ [stateCall])
+  let shots := effShots progs kw l
+  if preCheck progs shots l then .error .notImplemented
+  else
+    match runList cp progs ⟨o, shots⟩ args e w l with
+    | .error err => .error err
+    | .ok (e1, w1, t) => .ok (e1, w1, t ++ stateCalls kw)
 
 def updOpts (old new : List (String × Int)) : List (String × Int) :=
   new ++ old.filter fun kv => !(new.any fun kv' => kv'.1 == kv.1)
@@ -443,23 +515,13 @@ def updOpts (old new : List (String × Int)) : List (String × Int) :=
 def reset (e : Eng) (w : World) (newOpts : List (String × Int)) : Eng × World × List Call :=
   let opts := updOpts e.opts newOpts
   ({ bk := e.bk, opts := opts, prev := none, runIds := [], samples := none, measured := fun _ => none,
+     contd := false,
      mpos := e.mpos },
    { w with vals := fun i => if e.runIds.contains i then (fun _ => none) else w.vals i },
    [{ name := "reset", opts := opts }])
 
 /-- the calls that can change the back end's state -/
 def mutating (t : List Call) : List Call := t.filter fun c => c.name != "state"
-
-/-- modes whose measured value a circuit reads before measuring them itself -/
-def Par.dep : Par → Option Nat
-  | .sym (.meas m) _ _ => some m
-  | _ => none
-
-def Cmd.deps (c : Cmd) : List Nat := c.pars.filterMap Par.dep
-
-def openDeps : List Cmd → List Nat
-  | [] => []
-  | c :: rest => c.deps ++ (openDeps rest).filter fun m => !(c.kind == .meas && c.regs.contains m)
 
 /-! ## heap level: `Gate.apply` and `Gate.decompose` on shared objects
 
